@@ -154,6 +154,41 @@ def one_c10(spec, batch, stats, cap):
         b.dispose()
 
 
+class _Collect:
+    """stands in for a Batch inside a worker process: collects (id, events, cfg) triples"""
+    def __init__(self):
+        self.items = []
+
+    def trace(self, tid, evs, cfg=None):
+        self.items.append((tid, evs, cfg))
+
+
+def _job(args):
+    kind, spec, cap, prop = args
+    c, stats = _Collect(), {"events": 0, "programs": 0}
+    if kind == "one":
+        one(spec, c, stats, cap, prop)
+    elif kind == "redeclared":
+        one_redeclared(spec, c, stats, cap)
+    else:
+        one_c10(spec, c, stats, cap)
+    return c.items, stats
+
+
+def run_jobs(jobs, batch, stats, workers):
+    import concurrent.futures as cf
+    if workers <= 1:
+        results = map(_job, jobs)
+    else:
+        ex = cf.ProcessPoolExecutor(max_workers=workers)
+        results = ex.map(_job, jobs, chunksize=1)
+    for items, st in results:           # in submission order: the batch does not depend on scheduling
+        for tid, evs, cfg in items:
+            batch.trace(tid, evs, cfg)
+        for k in st:
+            stats[k] += st[k]
+
+
 def main():
     ap = argparse.ArgumentParser()
     ap.add_argument("--out", required=True)
@@ -169,15 +204,17 @@ def main():
     cap = 2000 if quick else 40000
     specs = [s for s in GR.fixed_specs() if finite_choice(s)]
     fam = [s for s in GR.family(R, 60 if quick else 600, FEATS) if finite_choice(s)]
+    jobs = []
     if a.prop == "C10":
         for spec in list(GR.RAW) + specs + fam[: (12 if quick else 150)]:
-            one_c10(spec, batch, stats, cap)
+            jobs.append(("c10", spec, cap, a.prop))
     else:
         for spec in specs + fam[: (30 if quick else 400)]:
-            one(spec, batch, stats, cap, a.prop)
+            jobs.append(("one", spec, cap, a.prop))
         for spec in specs + fam[: (10 if quick else 100)]:
             if GR.lang_size(spec, 3) <= cap:
-                one_redeclared(spec, batch, stats, cap)
+                jobs.append(("redeclared", spec, cap, a.prop))
+    run_jobs(jobs, batch, stats, 4 if quick else 14)
     batch.traces = finalize(batch.traces)
     paths = batch.shards(a.out, a.shards)
     write_summary(a.out, {"batches": paths, "traces": len(batch.traces), "events": stats["events"],
